@@ -136,12 +136,16 @@ ListedOK(h, e) ==
     /\ PairNums(e) \subseteq 1..L(h)
     /\ Owed(h, e) \subseteq PairNums(e)
 
+(* STAT: the count is that of the messages not marked (messages removed     *)
+(* meanwhile may or may not be counted, marked ones too: see the readings); *)
+(* the total is the sum of the sizes the session has listed for them.       *)
+StatCountOK(h, e) ==
+    /\ Len(e.nums) = 2
+    /\ Cardinality(Owed(h, e)) <= Num(e, 1) /\ Num(e, 1) <= L(h)
 StatTotalOK(h, e) ==
     LET c == Num(e, 1)  t == Num(e, 2)
         U == Unmarked(h)  A == 1..L(h) IN
-    /\ Len(e.nums) = 2
-    /\ Cardinality(Owed(h, e)) <= c /\ c <= L(h)
-    /\ (c = Cardinality(U) \/ c = L(h)) =>
+    (c = Cardinality(U) \/ c = L(h)) =>
           \E S \in {U, A} : c = Cardinality(S) /\ ((\A n \in S : Known(h, n)) => t = SumSz(h, S))
 
 (* the set of violated clauses of one step *)
@@ -172,6 +176,7 @@ StepBad(cat, h, e) ==
     \cup
     (CASE e.act = "Stat" ->
             (IF e.st # "ok" THEN {"C20.Served"}
+             ELSE IF ~StatCountOK(h, e) THEN {"C20.ListingStable"}
              ELSE IF ~StatTotalOK(h, e) THEN {"C20.SizeAgrees"} ELSE {})
        [] e.act = "List" ->
             (IF e.st # "ok" THEN {"C20.Served"}
